@@ -17,6 +17,9 @@ pub struct BKnobs {
     pub setchunk_w: u32,
     pub repeat_num: u64,
     pub m: usize,
+    /// chunk-size changes may be emitted while messages are in flight (legal: the new size
+    /// applies to every later chunk, of every message)
+    pub setchunk_midflight: bool,
 }
 
 impl BKnobs {
@@ -33,7 +36,9 @@ impl BKnobs {
         } else {
             2 + ctx.ch.draw("cfg.m", (m_max - 1) as u64) as usize
         };
+        let setchunk_midflight = m > 1 && ctx.ch.chance("cfg.midflight", 1, 4);
         BKnobs {
+            setchunk_midflight,
             csid_mode,
             type_mode,
             msid_mode,
@@ -290,18 +295,22 @@ pub fn gen_stream(ctx: &mut Ctx, k: &BKnobs, max_msgs: usize) -> Stream {
         };
         if pick == 0 {
             // start something new
-            let kind = ctx.ch.weighted("op.kind", &[2, 12, if active.is_empty() { k.setchunk_w } else { 0 }]);
+            let kind = ctx.ch.weighted("op.kind", &[2, 12, if active.is_empty() || k.setchunk_midflight { k.setchunk_w } else { 0 }]);
             match kind {
                 0 => {
                     script_open = false;
                 }
                 2 => {
                     let size = draw_chunk_size(ctx);
-                    let csid = if ctx.ch.chance("op.arg.cscsid", 1, 4) {
-                        draw_csid(ctx, k, &[])
+                    let busy: Vec<u32> = active.iter().map(|c| c.csid).collect();
+                    let csid = if ctx.ch.chance("op.arg.cscsid", 1, 4) || busy.contains(&2) {
+                        draw_csid(ctx, k, &busy)
                     } else {
                         2
                     };
+                    if !active.is_empty() {
+                        ctx.probe("b.setchunk_midflight");
+                    }
                     let ts = enc.prev(csid).map(|p| p.0).unwrap_or(0);
                     let m = RefMsg {
                         type_id: 1,
